@@ -950,7 +950,9 @@ impl<'b> InnerBucket<'b> {
                             Ok(i) => i,
                             _ => panic!("child branch not found"),
                         };
+                        let mut merged_right = false;
                         if node.data.len() > 0 && branches.len() > 1 {
+                            merged_right = index == 0;
                             // add that child's data to a sibling node
                             let sibling_page = if index == 0 {
                                 // right sibling
@@ -967,6 +969,9 @@ impl<'b> InnerBucket<'b> {
                             let mut sibling = sibling.borrow_mut();
                             // Copy this node's data over to it's sibling
                             sibling.data.merge(&mut node.data);
+                            if merged_right {
+                                sibling.original_key = node.original_key.clone();
+                            }
                             if !node.children.is_empty() {
                                 // Move all children nodes over to that sibling too
                                 for child in node.children.iter() {
@@ -981,6 +986,13 @@ impl<'b> InnerBucket<'b> {
                         node.free_page(tx_freelist);
                         node.deleted = true;
                         if let NodeData::Branches(branches) = &mut parent.data {
+                            if merged_right {
+                                // The right sibling now begins with this node's keys, so it takes
+                                // over this node's key in the parent. Otherwise a search for one of
+                                // the moved keys could be led to a different child once the parent
+                                // itself has been merged into its left sibling.
+                                branches[index + 1].key = branches[index].key.clone();
+                            }
                             // remove the child from this node
                             branches.remove(index);
                         }
